@@ -430,15 +430,21 @@ def fault_points(ty, cfg, path=(), vtag="", extra=False, via_ptr=False):
             # null setting, whose name is part of the path
             for f in (ty["f"] if extra and not via_ptr else []):
                 fo = tag_opts(f)
-                if "ignore" in fo or "inline" in fo or f["ty"]["t"] not in PRIM_KINDS:
+                if "ignore" in fo:
                     continue
-                if any(w in f["v"] for w in ("required", "nonzero")) or f["v"].replace(" ", "") in ("min=1", "min=2", "min=3", "min=4"):
-                    if f["ty"]["t"] != "bool":
-                        out.append((path, "null-struct:" + field_key(f), None))
-                        # ... and the same with the struct's setting left out altogether (only directly below structs: a map
-                        # entry or list element that is left out does not exist)
-                        out.append((path, "absent-struct:" + field_key(f), {"__drop__": True}))
-                        break
+                # fields are initialised in declaration order and the first failing one is reported: the expectation names
+                # a field only when every field before it certainly passes on its zero value (no validator at all)
+                if "inline" in fo or f["ty"]["t"] not in PRIM_KINDS:
+                    break
+                if not f["v"].strip():
+                    continue
+                if (any(w in f["v"] for w in ("required", "nonzero")) or f["v"].replace(" ", "") in ("min=1", "min=2", "min=3", "min=4")) \
+                        and f["ty"]["t"] != "bool":
+                    out.append((path, "null-struct:" + field_key(f), None))
+                    # ... and the same with the struct's setting left out altogether (only directly below structs: a map
+                    # entry or list element that is left out does not exist)
+                    out.append((path, "absent-struct:" + field_key(f), {"__drop__": True}))
+                break
         d = dict((k, v) for k, v in cfg["m"])
         for f in ty["f"]:
             opts = tag_opts(f)
